@@ -90,6 +90,9 @@ def case_coq(c):
         return "CAck [%s] [%s] %s" % ("; ".join(evs), "; ".join(batch(b) for b in (c.get("acked") or [])), batch(c.get("final")))
     if k == "ackerr":
         return "CAckErr %s" % ("true" if c["erracked"] else "false")
+    if k == "conflict":
+        bl = lambda bs: "[" + "; ".join(batch(b) for b in (bs or [])) + "]"
+        return "CConflict %s %d %s %s" % (bl(c["old"]), c["j"], bl(c["new"]), bl(c.get("applied")))
     raise ValueError(k)
 
 
@@ -233,6 +236,8 @@ def main(ck):
             return len(c.get("groups") or []) > 1
         if k == "replay":
             return bool(c.get("clears")) or c["commit"] > c["appliedAt"]
+        if k == "conflict":
+            return True
         if k == "ack":
             return any(o["op"] == "c" for o in (c.get("ops") or [])) and any(o["op"] == "w" for o in (c.get("ops") or []))
         return True
